@@ -3,10 +3,103 @@ import ast
 
 from sa.model import AnalysisError, Unfoldable, norm, walk_no_nested
 from sa.interp import Interp, Frame
-from sa.values import ADict, AList, AObj, AStream, Unk
+from sa.values import ADict, AList, AObj, AStream, Unk, concrete as cv, is_concrete as is_c
 from sa.dom import DomRoles, DomReaderHarness, capture_record_shapes, SECTION_CLASSES
 from sa.props.c05 import typed_options, writer_method_for
 from sa import sinks
+
+
+def verbatim_rule(P, rep, rid):
+    """Abstractly load a full tree whose content-section headers carry: length, an encoding marker, an unknown
+    option marker (and no format on metadata).  The options mapping of the section built from each record must
+    hold exactly the header's pairs minus "length": same value objects, no key the header did not have."""
+    from sa.dom import all_objects
+    shapes = capture_record_shapes(P)
+    problems = {}
+    counts = {'ok': 0, 'paths': 0, 'sections': 0}
+    for full in (False, True):
+        _verbatim_pass(P, shapes, full, problems, counts)
+    if not counts['paths'] or (not counts['ok'] and not problems):
+        raise AnalysisError('loading the marked tree produced no completed path')
+    dr = P.cls('pydiffx.dom.reader', 'DiffXDOMReader')
+    for (key, sid), msg in sorted(problems.items()):
+        rep.violation(rid, 'verbatim:%s:%s' % (sid, key), dr.module.relpath, msg, path=['DiffXDOMReader.parse'])
+    if not problems:
+        rep.ok(rid, 'content sections of a loaded tree hold header options minus length', {'sections': counts['sections'], 'paths': counts['paths']})
+
+
+KNOWN_OPTION_NAMES = ('encoding', 'line_endings', 'indent', 'mimetype', 'format', 'type')
+
+
+def _verbatim_pass(P, shapes, full, problems, counts):
+    from sa.dom import all_objects
+    H = DomReaderHarness(P, shapes, open_options=False)
+    marks = {}
+
+    def hook(i, sid, rec):
+        opts = None
+        for v in rec.items.values():
+            if isinstance(v, ADict):
+                opts = v
+        if opts is None:
+            raise AnalysisError('record without an options mapping')
+        if sid in ('diffx', '.change', '..file'):
+            return
+        mk = Unk('marker#%d' % i, kinds=['str'], taint=['INPUT'])
+        keep = {'x-unknown': mk}
+        for k_ in list(opts.items):
+            if k_ != 'length':
+                del opts.items[k_]
+        if full:
+            # every option name the specification defines, each with its own unknown value
+            for k_ in KNOWN_OPTION_NAMES:
+                keep[k_] = Unk('%s#%d' % (k_, i), kinds=['str'], taint=['INPUT'])
+        opts.items.update(keep)
+        marks[i] = (sid, mk, dict(opts.items))
+    H.record_hook = hook
+    I = Interp(P, unknown_iters=(1,))
+    H.install(I)
+
+    def thunk():
+        marks.clear()
+        rd = H.new_reader(I)
+        tree, s = H.run_parse(I, rd, 'in')
+        return tree
+    npaths = 0
+    okc = 0
+    for path in I.explore(thunk):
+        npaths += 1
+        if npaths > 3000:
+            raise AnalysisError('too many paths while loading the marked tree')
+        if path.outcome != 'return':
+            continue
+        objs = all_objects(path.value)
+        for i, (sid, mk, header) in sorted(marks.items()):
+            owner = [o for o in objs if isinstance(o.attrs.get('options'), ADict) and any(v is mk for v in o.attrs['options'].items.values())]
+            if len(owner) != 1:
+                problems.setdefault(('unknown-option-lost', sid), 'the unknown option of a %s header is not found in the options of exactly one '
+                                    'section of the loaded tree (found in %d)' % (sid, len(owner)))
+                continue
+            got = owner[0].attrs['options'].items
+            want = {k: v for k, v in header.items() if k != 'length'}
+            extra = sorted(set(got) - set(want))
+            missing = sorted(set(want) - set(got))
+            changed = sorted(k for k in set(want) & set(got) if got[k] is not want[k] and not (is_c(got[k]) and is_c(want[k]) and cv(got[k]) == cv(want[k])))
+            if 'length' in got:
+                problems.setdefault(('length-kept', sid), 'the derived option "length" of a %s header is kept in the object model' % sid)
+                extra = [k for k in extra if k != 'length']
+            if extra:
+                problems.setdefault(('extra:%s' % ','.join(extra), sid), 'a %s section loaded from a header without %s has %s in its options '
+                                    '(class defaults are not cleared): re-serialising adds options the file did not have' % (sid, extra, extra))
+            if missing:
+                problems.setdefault(('dropped:%s' % ','.join(missing), sid), 'the option(s) %s of a %s header are not stored in the object model' % (missing, sid))
+            if changed:
+                problems.setdefault(('changed:%s' % ','.join(changed), sid), 'the option(s) %s of a %s header are stored with a different value' % (changed, sid))
+            if not (extra or missing or changed or 'length' in got):
+                okc += 1
+    counts['ok'] += okc
+    counts['paths'] += npaths
+    counts['sections'] += len(marks)
 
 
 def run(P, rep, tier):
@@ -144,18 +237,7 @@ def run(P, rep, tier):
                               % (mname, pname, dv, sname, opt, opt, dv), path=[dw.name + '._write_content_section', mname])
     # ---- R3 verbatim storage / re-emission (table rules) -----------------------------------------------
     r3 = rep.rule('C06-R3', 'the DOM reader stores options verbatim (drops only length)', reference=1)
-    dr = P.cls('pydiffx.dom.reader', 'DiffXDOMReader')
-    popped = set()
-    for f in dr.methods.values():
-        for n in walk_no_nested(f.node):
-            if isinstance(n, ast.Call) and isinstance(n.func, ast.Attribute) and n.func.attr == 'pop' and n.args \
-                    and isinstance(n.args[0], ast.Constant):
-                popped.add(n.args[0].value)
-    if popped == {'length'}:
-        rep.ok(r3, 'dom/reader.py drops %s only' % sorted(popped))
-    else:
-        rep.violation(r3, 'dropped:%s' % ','.join(sorted(map(str, popped))), dr.module.relpath,
-                      'the DOM reader removes %s from the stored options' % sorted(map(str, popped)))
+    verbatim_rule(P, rep, r3)
     r3b = rep.rule('C06-R3b', 'the DOM writer re-emits every stored option whatever its value (shared with C05-R8)', reference=5)
     from sa.props.c05 import reemit_rule
     reemit_rule(P, D, rep, r3b, dw, remap)
